@@ -1033,6 +1033,7 @@ def two_vector_cases(T, lay, cfg, qt, v3, kt, tg, sc):
         res = []
         seen = set()
         kinds = set()
+        ident_thresholds = set()
         for vals, got, ctxd in rows:
             key = tuple(g.key() for g in got)
             if key in seen:
@@ -1040,6 +1041,14 @@ def two_vector_cases(T, lay, cfg, qt, v3, kt, tg, sc):
             seen.add(key)
             if got[0] == ONE and all(g.is_zero() for g in got[1:]):
                 kinds.add('identity')
+                # the shortcut is taken on u.v >= c: c is read off the comparison of this row that involves u.v
+                for at, v_ in zip(atoms, vals):
+                    if at[0] != 'pair':
+                        continue
+                    pa, pb = infos[at]
+                    for p_, q_ in ((pa, pb), (pb, pa)):
+                        if p_.is_const() and p_.t and units(q_ - dot_).is_zero():
+                            ident_thresholds.add(Fraction(p_.cval()))
                 continue
             if not any(P.atom_key(a)[0] == 'sqrt' and P.atom_key(a)[1][1] == (ONE + dot_).scale(2) for g in got for a in P.lane_atoms([]) | set().union(*[set(x.atoms()) | {b for y in x.atoms() if P.atom_key(y)[0] == 'inv' for b in P.atom_key(y)[1][1].atoms()} for x in got])):
                 kinds.add('opposite')
@@ -1058,7 +1067,21 @@ def two_vector_cases(T, lay, cfg, qt, v3, kt, tg, sc):
         if 'generic' not in kinds:
             res.append(R.ob('%s.generic_arm' % nm2, 'two_vectors', R.UNDECIDED, 'no generic arm found (kinds: %s)' % sorted(kinds)))
         if 'identity' in kinds:
-            res.append(R.ob('%s.same_direction_arm' % nm2, 'two_vectors', R.PROVED, 'u.v >= 1 - epsilon returns the identity quaternion', kernel=k2.source()))
+            # the identity is an approximation of the rotation by the angle acos(u.v): acceptable only within the resolution of the element type.  The threshold c of
+            # the shortcut must satisfy 1 - c <= 16 epsilon<T> (GLM uses 1 - epsilon<T>); a float epsilon in the double instantiation treats vectors up to 4.9e-4 rad
+            # apart as parallel
+            eps_t = Fraction(1, 2 ** (23 if w == 32 else 52))
+            cands = sorted(c_ for c_ in ident_thresholds if Fraction(1, 2) < c_ <= 1)
+            if not cands:
+                res.append(R.ob('%s.same_direction_arm' % nm2, 'two_vectors', R.UNDECIDED, 'identity arm found, its threshold on u.v not identified (%s)' % sorted(map(float, ident_thresholds))[:3], kernel=k2.source()))
+            else:
+                c_ = cands[0]
+                ok = 1 - c_ <= 16 * eps_t
+                import math
+                res.append(R.ob('%s.same_direction_arm' % nm2, 'two_vectors', R.PROVED if ok else R.REFUTED,
+                                'u.v >= 1 - %.3g returns the identity quaternion (within the resolution of %s)' % (float(1 - c_), T) if ok else
+                                'the identity is returned whenever u.v >= 1 - %.3g, i.e. for unit vectors up to %.3g rad apart (e.g. u = (1, 0, 0), v = ((1 - t^2)/(1 + t^2), 2t/(1 + t^2), 0), t = 1e-5: '
+                                'rotation(u, v) * u = u, off v by 2e-5); %s resolves %.3g' % (float(1 - c_), math.acos(float(c_)), T, float(eps_t)), kernel=k2.source()))
         return res
     cs.append(R.Case(nm2, [k2], guard(nm2, [k2], body2)))
     # gtx rotation(u, -u): the opposite-directions arm.  The returned vector part is a normalised guess axis: it must be perpendicular to u and unit,
